@@ -8,7 +8,7 @@ from typing import Dict, List, Optional, Set, Tuple
 
 from .core import AnalysisError, Report
 from .emit import Folder, Slot, Tpl
-from .prog import (ClassInfo, Program, bind_call, clone_expr, dotted, enclosing, func_params, guards_of, inline_locals,
+from .prog import (ClassInfo, Program, bind_call, bound_args, clone_expr, dotted, enclosing, func_params, guards_of, inline_locals,
                    local_assignments, parent, stmt_of, unparse, value_def, walk_no_nested)
 
 MW = "gtwrap/matlab_wrapper/wrapper.py"
@@ -1365,7 +1365,7 @@ def rule_receiver_offset(ctx, rep: Report, rid="M3"):
     ok = False
     detail = ""
     if len(ms) == 1:
-        kw = {k.arg: k.value for k in ms[0].keywords}
+        kw = bound_args(wua, ms[0])
         start = canon(unparse(kw["arg_id"])).replace(" ", "") if "arg_id" in kw else default_start
         fo = Folder(prog, ci.mod, gc, ci)
         tpl = None
@@ -1387,7 +1387,7 @@ def rule_receiver_offset(ctx, rep: Report, rid="M3"):
     # constructor & function: start 0, no adjustment
     for role in ("constructor", "function"):
         cs = by_role.get(role, [])
-        ok = len(cs) >= 1 and all(not any(k.arg == "arg_id" for k in c.keywords) and len(c.args) == 1 for c in cs) and default_start == "0"
+        ok = len(cs) >= 1 and all("arg_id" not in bound_args(wua, c) for c in cs) and default_start == "0"
         rep.add(rid, f"{role} routine:arguments unwrapped from in[0]", ok,
                 f"calls {[unparse(c)[:70] for c in cs]}, default start {default_start}", loc)
     # checkArguments of the function routine
@@ -1398,7 +1398,7 @@ def rule_receiver_offset(ctx, rep: Report, rid="M3"):
             "", loc, nontrivial=False)
     # property
     ua = [c for c in ast.walk(gc) if isinstance(c, ast.Call) and unparse(c.func) == "self._unwrap_argument" and role_of(c) == "property"]
-    kw = {k.arg: unparse(k.value) for k in ua[0].keywords} if ua else {}
+    kw = {k_: unparse(v_) for k_, v_ in bound_args(prog.method("MatlabWrapper", "_unwrap_argument"), ua[0]).items()} if ua else {}
     # the count check of the property routines, read off the emitted text `checkArguments("<name>",nargout,nargin<adj>,<count>);`
     # (format call or f-string alike; a constant field is part of the text)
     fo_p = Folder(prog, ci.mod, gc, ci)
@@ -1494,7 +1494,7 @@ def rule_defaults(ctx, rep: Report, rid="M4"):
         tested = any(f"{cand}.defaultisnotNone" in t.replace(unparse(inline_locals(fn, ast.parse(cand, mode='eval').body)).replace(" ", ""), cand) or
                      ".defaultisnotNone" in t for t in tests)
         rec = [c for c in ast.walk(scope) if isinstance(c, ast.Call) and unparse(c.func).endswith("_expand_default_arguments")]
-        rec_ok = len(rec) == 1 and any(k.arg == sb and unparse(k.value) == "False" for k in rec[0].keywords)
+        rec_ok = len(rec) == 1 and unparse(bound_args(fn, rec[0]).get(sb, ast.Constant(value=None))) == "False"
         rem = [c for c in ast.walk(scope) if isinstance(c, ast.Call) and isinstance(c.func, ast.Attribute) and c.func.attr == "remove"
                and unparse(c.args[0]) == cand and is_arg_list(c.func.value)]
         ok_loop = tested and rec_ok and len(rem) == 1
@@ -2381,7 +2381,7 @@ def rule_base_class_spelling(ctx, rep: Report, rid="T13"):
                 uses = [a for a in ast.walk(h[1]) if isinstance(a, ast.Attribute) and a.attr == "ignore_namespace"]
                 # the formatter consults the list only while it writes namespaces: a call that asks for none, and adds
                 # them itself from `.namespaces`, is not affected
-                off = [k.arg for k in c.keywords if isinstance(k.value, ast.Constant) and k.value.value is False]
+                off = [k_ for k_, v_ in bound_args(h[1], c).items() if isinstance(v_, ast.Constant) and v_.value is False]
                 if uses and off and all(any(t.replace(" ", "") in off for t, pol in guards_of(a, h[1], include_exits=False) if pol) for a in uses) \
                         and any(isinstance(x, ast.Attribute) and x.attr == "namespaces" for x in ast.walk(e)):
                     continue
